@@ -2015,10 +2015,15 @@ class Interp:
                 names = [str(getattr(t_, 'name', t_)).split('.')[-1] for t_ in (args[1] if isinstance(args[1], (tuple, list)) else [args[1]])]
                 if names and all(n_ in ('float', 'int', 'complex', 'bool', 'str', 'float64', 'floating', 'integer', 'Number', 'Real', 'ndarray', 'list', 'tuple', 'dict') for n_ in names):
                     return any(n_ in ('int', 'integer', 'Number', 'Real') for n_ in names)
-            if len(args) == 2 and isinstance(args[0], Obj) and getattr(args[0], 'native', False) and args[0].cls is not None:
+            if len(args) == 2 and isinstance(args[0], Obj) and isinstance(args[0].cls, tuple) and len(args[0].cls) == 3 and args[0].cls[0] == 'class':
+                # an instance of a repository class (constructed by the interpreter or handed in by a harness with its class): decided by the class hierarchy
                 cands = args[1] if isinstance(args[1], (tuple, list)) and not (len(args[1]) == 3 and args[1][0] == 'class') else [args[1]]
                 if all(isinstance(c_, tuple) and len(c_) == 3 and c_[0] == 'class' for c_ in cands):
                     return any(self.is_subclass(args[0].cls, c_) for c_ in cands)
+            if len(args) == 2 and (isinstance(args[0], (int, str, Fraction, Node, float)) or args[0] is None):
+                cands = args[1] if isinstance(args[1], (tuple, list)) and not (len(args[1]) == 3 and args[1][0] == 'class') else [args[1]]
+                if cands and all(isinstance(c_, tuple) and len(c_) == 3 and c_[0] == 'class' for c_ in cands):
+                    return False          # a number, a string or None is not an instance of a repository class
             return Opaque('isinstance')
         if nm == 'type':
             a = args[0]
